@@ -34,6 +34,7 @@ def cfg_term(m=0, M=0, b=0, mdi=0, gf_ok=True, scales_ok=True, ms=1, pms=1):
 
 
 def run(ctx):
+    from harness.timelimit import Hang, time_limit
     from skchange.anomaly_detectors import CAPA, MVCAPA, CircularBinarySegmentation, StatThresholdAnomaliser
     from skchange.anomaly_scores import L2Saving, Saving
     from skchange.change_detectors import PELT, MovingWindow, SeededBinarySegmentation
@@ -51,6 +52,10 @@ def run(ctx):
         try:
             d = mk()
             X = pd.DataFrame(rng.normal(size=(max(n, 0), p)) * 2 + np.arange(max(n, 0)).reshape(-1, 1) * 0.01)
+            if storage["i"] % 5 == 4:
+                # "every finite input": constant data (scores are pure rounding noise, a tuned threshold can be zero or slightly negative)
+                X = pd.DataFrame(np.full((max(n, 0), p), [3.7, 0.1, 7.77][(storage["i"] // 5) % 3]))
+                ctx.count("data", "constant")
             if nan and n > 0:
                 X.iloc[n // 2, p - 1] = np.nan
             # the same numbers in other column storages (every 7th attempt): pandas nullable Float64, object dtype, integer-valued nullable Int64 next to float64
@@ -64,15 +69,22 @@ def run(ctx):
                 # (object-dtype columns are outside the numeric dtypes the properties quantify over: PELT(GaussianCovCost) raises AttributeError
                 #  inside np.cov on them -- noted in DESIGN.md, not part of this grid)
                 ctx.count("storage", ["Float64", "Int64+float64"][kind_s])
-            stage = "fit"
-            d.fit(X)
-            stage = "predict"
-            y = d.predict(X)
+            with time_limit(10):
+                stage = "fit"
+                d.fit(X)
+                stage = "predict"
+                y = d.predict(X)
             if not (isinstance(y, pd.DataFrame) and "ilocs" in y.columns and isinstance(y.index, pd.RangeIndex)):
                 return "other:MalformedOutput", stage, str(type(y))
             return "completed", stage, ""
         except ValueError as ex:
             return "ValueError", stage, str(ex)[:90]
+        except Hang as ex:
+            return "other:DoesNotReturn", stage, str(ex)[:90]
+        except RuntimeError as ex:
+            if "positive definite" in str(ex):
+                return "documented-npd", stage, str(ex)[:90]     # the documented error for a non-positive-definite sample covariance (constant data)
+            return "other:RuntimeError", stage, str(ex)[:90]
         except Exception as ex:  # noqa
             return "other:" + type(ex).__name__, stage, str(ex)[:90]
 
@@ -86,6 +98,8 @@ def run(ctx):
                 ctx.count("outcome", res.split(":")[0] + "@" + stage)
                 ctx.case({k: inp[k] for k in ("detector", "params", "p", "n", "nan")}, nontrivial=boundary or res != "completed" or n == min_len,
                          sample={k: inp[k] for k in ("detector", "params", "p", "n", "nan", "outcome", "stage")})
+                if res == "documented-npd":
+                    continue
                 if res.startswith("other:"):
                     ctx.violation(f"{det_name}({params}) on n={n}, p={p}{', NaN' if nan else ''}: {stage} raised {res.split(':')[1]} ({msg}) -- only ValueError "
                                   f"or a well-formed result is permitted", inp, {"what": "exception-class", "detector": det_name, "cls": res.split(":")[1], "stage": stage})
